@@ -29,6 +29,8 @@ mod tests;
 pub mod timing;
 #[cfg(penguin_rs_verif)]
 pub mod verif_hooks;
+#[cfg(all(test, loom, penguin_rs_verif))]
+mod verif_loom;
 pub mod ws;
 
 use crate::frame::{BindPayload, BindType, Frame};
